@@ -4,6 +4,7 @@ INVARIANT LastWriteWins
 INVARIANT EnumWriteWins
 INVARIANT RegWriteWins
 INVARIANT ViewsConsistent
+INVARIANT GroupsTile
 PROPERTY Independent
 PROPERTY RegsIndependent
 PROPERTY Frozen
